@@ -21,7 +21,8 @@ Decided here are structural clauses that are genuine necessary conditions of it 
            the entry is otherwise overwritten in place with the token's value, the list holds one entry per name and
            a first-match lookup is accepted; if some token form still appends unconditionally, a first-match
            lookup is reported naming that form.
-  R-C18-5  removeArgs shift loop and count update, ArgumentList constructor range, ArgumentList::remove erase
+  R-C18-5  the ArgumentList member owns copies of the argument text (std::string elements, not pointers into argv);
+           removeArgs shift loop and count update, ArgumentList constructor range, ArgumentList::remove erase
            count and position, parseAndRemove advances iff nothing was consumed.
   R-C18-6  longestBeginningMatch bounds std::mismatch by the shorter length; beginsWith compares the match
            length with the length of the prefix argument.
@@ -31,7 +32,8 @@ Decided here are structural clauses that are genuine necessary conditions of it 
            delimiter starts at the token start, the next token starts right behind the delimiter; split(char)
            reads with getline(stream(input), token, delimiter parameter).
   R-C18-8  cut points: FileName path/base cut behind the last separator, ext/dropExt/name/setExt cut at the dot;
-           PseudoURL constructor skips "://" by its own length and cuts name=value around '='.
+           PseudoURL constructor skips "://" by its own length and cuts name=value around the first '=' (both cuts must
+           be found, in the constructor or a helper; a value taken as field [1] of split(component, '=') is reported).
 
   R-C18-9  PseudoURL::params keeps URL order: only appended to (one append per token, tokens 1..n ascending, token 0
            is the file name), never handed to an operation that reorders or overwrites it (std::sort, unique, ...);
@@ -39,8 +41,9 @@ Decided here are structural clauses that are genuine necessary conditions of it 
   R-C18-10 a rung that prints <integer>.<integer> prints a fraction that fits its digits: interval of the fraction
            expression over the unsigned input with the constant unit of the call site (positive example in the witness).
 
-  R-C18-11 FileName normal form: every function that writes the private string is a constructor / helper that strips all
-           trailing separators after storing its input (loop or find_last_not_of form), or only copies another
+  R-C18-11 FileName normal form: every function that writes the private string is a constructor / helper (by reference or
+           by value) that strips all trailing separators after storing its input AND after converting foreign
+           separators (loop or find_last_not_of form), or only copies another
            FileName's string; appending a separator to the private string outside such a function is reported.
   R-C18-12 purity: no function reachable from the anchored helpers writes a non-const object with static storage
            duration (function-local static, namespace scope); thread_local / atomic / mutex state is not decided;
@@ -2276,9 +2279,49 @@ def check_remove_args(ctx, tu):
     return n
 
 
+def copies_made(tu):
+    for f in tu.fns(q='rkcommon::utility::ArgumentList::ArgumentList'):
+        if f['dep'] or tu.body(f) is None or f.get('implicit'):
+            continue
+        for y in tu.walk(tu.body(f)):
+            if y.get('kind') == 'CXXNewExpr' or (y.get('kind') == 'CallExpr' and
+                                                 tu.sd(y).get('q') in ('strdup', 'strndup', 'malloc', 'strcpy', 'memcpy', 'std::strcpy', 'std::memcpy')):
+                return True
+    return False
+
+
+def arglist_owns(ctx, tu, R, n0):
+    """the member that keeps the arguments must own copies of the text (std::string elements); pointers into the caller's
+    argv are the recognised-wrong form"""
+    n = 0
+    for r in tu.records.values():
+        if r.get('q') != 'rkcommon::utility::ArgumentList':
+            continue
+        for fl in r.get('fields', []):
+            ct = fl.get('ct') or ''
+            if 'vector' not in ct and 'deque' not in ct and 'list' not in ct:
+                continue
+            n += 1
+            inst = 'ArgumentList::%s (%s)' % (fl['name'], ct)
+            loc = 'rkcommon/utility/ArgumentList.h'
+            if 'basic_string<' in ct and 'basic_string_view' not in ct:
+                ctx.ok(R, inst, 'the list owns a copy of every argument', loc)
+            elif (re.search(r'<\s*(const )?char \*', ct) or 'basic_string_view' in ct) and copies_made(tu):
+                ctx.undecided(R, inst, 'the elements are pointers, but the constructor allocates / copies text: ownership not decided', loc)
+            elif re.search(r'<\s*(const )?char \*', ct) or 'basic_string_view' in ct:
+                ctx.violation(R, inst, 'the list keeps pointers into the caller\'s argument vector instead of copies of the text: when the '
+                              'caller re-uses or frees those buffers the remaining arguments change or dangle, so the list no longer '
+                              'holds exactly the unconsumed arguments', loc,
+                              key='%s|rkcommon/utility/ArgumentList.h|ArgumentList|stores-argv-pointers' % R)
+            else:
+                ctx.undecided(R, inst, 'cannot tell whether the elements own their text', loc)
+        break
+    return n
+
+
 def check_arglist(ctx, tu):
     R = 'R-C18-5'
-    n = 0
+    n = arglist_owns(ctx, tu, R, 0)
     for f in tu.fns(q='rkcommon::utility::ArgumentList::remove'):
         if f['dep'] or tu.cfg(f) is None:
             continue
@@ -4799,6 +4842,7 @@ def check_url_cuts(ctx, tu):
     R = 'R-C18-8'
     n = 0
     fns = []
+    lits_seen, lits_ok = set(), set()
     for f in tu.fns(q=URL + '::PseudoURL'):
         if f['dep'] or tu.cfg(f) is None or f.get('ctor') in ('copy', 'move') or f.get('implicit') or not f.get('params'):
             continue
@@ -4866,7 +4910,8 @@ def check_url_cuts(ctx, tu):
                     for lf in (rels_of(nf) or []):
                         if lf[0] == 'rel' and lf[1] == Rel.make(V, '!=', P_NPOS):
                             found = True
-                if not found:
+                if not found and not (len(ps) == 2 and ps[0].as_int() == 0 and (ps[1] - V).as_int() == 0):
+                    # (the head cut substr(0, pos) is well defined for pos == npos: the whole string)
                     bad.append(('unguarded', '`%s` is evaluated although `%s` may be npos' % (tu.show(nd), v['name'])))
                     continue
                 if len(ps) == 2:
@@ -4900,7 +4945,52 @@ def check_url_cuts(ctx, tu):
             elif len(seen) < 2:
                 ctx.undecided(R, inst, 'expected a head and a tail cut at this delimiter, found %s' % seen, loc)
             else:
+                lits_ok.add(lit)
                 ctx.ok(R, inst, ', '.join(seen), loc)
+            lits_seen.add(lit)
+    # ---- by role: the constructor (or a helper of it) must cut type://rest and name=value somewhere
+    for lit, what in (('"://"', 'the type from the rest at "://"'), ("'='", "name=value at the first '='")):
+        if lit in lits_seen or not fns:
+            continue
+        n += 1
+        f0 = fns[0]
+        inst = '%s: cuts %s' % (fn_name(f0), what)
+        done = False
+        if lit == "'='":
+            # recognised wrong: the value is the second field of a tokenisation at every '='
+            for f in fns:
+                x = FnX(tu, f)
+                for d, v in x.vars.items():
+                    init = x.single_init(d)
+                    e = x.peel(init) if init is not None else None
+                    if e is None or e.get('kind') != 'CallExpr' or tu.sd(e).get('q') not in ('rkcommon::utility::split',):
+                        continue
+                    args = tu.kids(e)[1:]
+                    if len(args) < 2 or x.poly_at(args[1], None).as_int() != 61:
+                        continue
+                    idx, other = set(), []
+                    for y in tu.walk(tu.body(f)):
+                        if y.get('kind') == 'DeclRefExpr' and y.get('referencedDecl', {}).get('id') == d:
+                            p = tu.par(y)
+                            while p is not None and p.get('kind') in ('ImplicitCastExpr', 'ParenExpr'):
+                                p = tu.par(p)
+                            if p is not None and p.get('kind') == 'CXXOperatorCallExpr' and last_name(tu.sd(p).get('q')) == 'operator[]':
+                                c = x.poly_at(tu.kids(p)[2], None).as_int()
+                                idx.add(c)
+                            elif p is not None and p.get('kind') == 'MemberExpr' and p.get('name') in ('size', 'empty'):
+                                pass
+                            elif p is not None and p.get('kind') == 'VarDecl':
+                                pass
+                            else:
+                                other.append(p)
+                    if 1 in idx and idx <= {0, 1} and not other:
+                        done = True
+                        ctx.violation(R, inst, "`%s` cuts the component at EVERY '=' and only field [1] is used as the value: a value "
+                                      "that itself contains '=' (filter=x=0..1) is truncated at its first '='; the value must be "
+                                      "everything behind the first '='" % tu.show(e), tu.loc(e),
+                                      key='%s|%s|%s|cut-=-value-from-split' % (R, tu.fn_file(f), fn_name(f)))
+        if not done:
+            ctx.undecided(R, inst, 'cannot find where the constructor (or a helper it calls) cuts %s' % what, tu.fn_loc(f0))
     return n
 
 
@@ -5357,15 +5447,18 @@ def has_strip(tu, f, tkey):
         if last_name(tu.sd(n).get('q')) in ('resize', 'erase') and len(real) == 1:
             p = x.poly_at(real[0], pos)
             for a in p.atoms(deep=False):
-                if isinstance(a, tuple) and a[0] == 'var' and (p - Poly.atom(a)).as_int() == 1:
-                    init = x.single_init(a[1])
-                    e = x.peel(init) if init is not None else None
+                if isinstance(a, tuple) and a[0] in ('var', 'expr') and (p - Poly.atom(a)).as_int() == 1:
+                    if a[0] == 'var':
+                        init = x.single_init(a[1])
+                        e = x.peel(init) if init is not None else None
+                    else:
+                        e = tu.node(a[1])
                     if e is not None and e.get('kind') == 'CXXMemberCallExpr' and last_name(tu.sd(e).get('q')) == 'find_last_not_of':
                         s2, o2, a2 = tu.call_parts(e)
                         r2 = [y for y in a2 if y.get('kind') != 'CXXDefaultArgExpr']
                         if x.objkey(o2) == tkey and len(r2) == 1 and x.poly_at(r2[0], None).as_int() in (47, 92) and \
                                 x.g.postdominates(pos, x.pos_of(e)):
-                            return (True, 'resize(find_last_not_of(separator) + 1)')
+                            return (True, '%s(find_last_not_of(separator) + 1)' % last_name(tu.sd(n).get('q')), pos, x)
     # loop form
     heads = loops_of(x)
     for h in heads:
@@ -5401,8 +5494,76 @@ def has_strip(tu, f, tkey):
             one = nm == 'pop_back' or (nm in ('resize', 'erase') and len(real) == 1 and x.poly_at(real[0], pos) == SIZE - 1)
             # reached exactly when the last character is a separator, and the loop then tests again
             if one and pos[0] in _reach_blocks(g, stay, stop=h) and h in _reach_blocks(g, pos[0]):
-                return (True, 'while (last character is a separator) drop it')
+                return (True, 'while (last character is a separator) drop it', pos, x)
     return (False, bool(shrinks))
+
+
+def conversions_after_strip(tu, strip, tkey):
+    """writes of a native separator into the string (T[i] = sep, `c = sep` for a reference c into T, std::replace(_if) over T)
+    that can execute after the strip: each can put a separator back at the end"""
+    if not strip[0] or len(strip) < 4:
+        return []
+    spos, x = strip[2], strip[3]
+    g = x.g
+    later = x.reach((spos[0], spos[1] + 1))
+    out = []
+
+    def is_sep(e):
+        c = x.poly_at(e, None).as_int() if e is not None else None
+        return c in (47, 92)
+
+    for b, i, n in g.stmts():
+        pos = (b.id, i)
+        k = n.get('kind')
+        hit = False
+        if k == 'BinaryOperator' and n.get('opcode') == '=' and is_sep(tu.kids(n)[1]):
+            l = tu.strip(tu.kids(n)[0], casts=True)
+            if l is not None and l.get('kind') in ('CXXOperatorCallExpr', 'CXXMemberCallExpr') and \
+                    last_name(tu.sd(l).get('q')) in ('operator[]', 'at', 'back'):
+                hit = x.objkey(tu.call_parts(l)[1]) == tkey
+            d, v = x.var_of(l) if l is not None else (None, None)
+            if d is not None and (v['ct'] or '').rstrip().endswith('&') and v.get('init') is not None:
+                # reference into the string: range-for variable over T
+                for y in tu.walk(tu.body(x.f)):
+                    if y.get('kind') == 'CXXForRangeStmt' and any(z.get('id') == d for z in tu.walk(y)):
+                        for vd in tu.walk(y):
+                            if vd.get('kind') == 'VarDecl' and (vd.get('name') or '').startswith('__range') and tu.kids(vd):
+                                hit = hit or x.objkey(tu.kids(vd)[0]) == tkey
+        if k == 'CallExpr' and tu.sd(n).get('q') in ('std::replace', 'std::replace_if', 'std::transform', 'std::fill'):
+            args = tu.kids(n)[1:]
+            over = any(y.get('kind') == 'CXXMemberCallExpr' and last_name(tu.sd(y).get('q')) in ('begin', 'end') and
+                       x.objkey(tu.call_parts(y)[1]) == tkey for a in args[:2] for y in tu.walk(a))
+            if over and args and (is_sep(args[-1]) or tu.sd(n).get('q') == 'std::transform'):
+                hit = True
+        if hit and pos in later and pos != spos:
+            out.append((n, pos))
+    return out
+
+
+def by_value_normaliser(tu, x, e):
+    """e = helper(<input>) where helper takes the string by value (or builds a local copy), normalises it and returns it:
+    -> (helper function, key of the returned local) or None"""
+    e = x.peel(e)
+    for _ in range(4):
+        if e is not None and e.get('kind') in ('CXXConstructExpr', 'CXXTemporaryObjectExpr', 'CXXFunctionalCastExpr'):
+            ks = [y for y in tu.kids(e) if y.get('kind') != 'CXXDefaultArgExpr']
+            if len(ks) == 1:
+                e = x.peel(ks[0])
+                continue
+        break
+    if e is None or e.get('kind') != 'CallExpr':
+        return None
+    hf = tu.callee_fn(e)
+    if hf is None or hf['dep'] or tu.cfg(hf) is None or hf.get('rec'):
+        return None
+    hx = FnX(tu, hf)
+    rets = [nd for b, i, nd in hx.g.stmts() if nd.get('kind') == 'ReturnStmt']
+    if len(rets) != 1 or not tu.kids(rets[0]):
+        return None
+    d, v = hx.var_of(hx.peel(tu.kids(rets[0])[0]))
+    if d is None or 'basic_string' not in (v['ct'] or '') or (v['ct'] or '').rstrip().endswith('&'):
+        return None
+    return hf, ('var', d, v['name'])
 
 
 def field_writes(tu, f, fq):
@@ -5489,11 +5650,13 @@ def check_normal_form(ctx, tu):
         x, ws = field_writes(tu, f, fq)
         # member initialiser of the string in a constructor
         init_from_param = None
+        init_expr = None
         if f.get('ctor') and f.get('rec') == FNAME:
             for b in x.g.blocks.values():
                 for e in b.el:
                     if e[0] == 'I' and e[3] == 'filename' and e[4]:
                         ie = tu.node(e[1])
+                        init_expr = ie
                         for y in tu.walk(ie) if ie is not None else ():
                             if y.get('kind') == 'DeclRefExpr' and y.get('referencedDecl', {}).get('id') in x.params:
                                 init_from_param = y
@@ -5511,6 +5674,17 @@ def check_normal_form(ctx, tu):
             # does this function (or a helper it hands the string to) strip trailing separators?
             strip = has_strip(tu, f, tkey)
             via = None
+            skey = tkey
+            if not strip[0]:
+                # the string comes out of a helper that normalises a copy and returns it
+                cands = [init_expr] if (init_expr is not None and tkey[1] == ('this',)) else []
+                cands += [w[3] for w in tw if w[0] == 'assign' and w[3] is not None]
+                for ce in cands:
+                    bv = by_value_normaliser(tu, x, ce)
+                    if bv is not None:
+                        hs = has_strip(tu, bv[0], bv[1])
+                        if hs[0]:
+                            strip, via, skey = hs, bv[0], bv[1]
             if not strip[0]:
                 for w in tw:
                     if w[0] == 'delegate' and w[3][0] is not None and w[3][1] is not None:
@@ -5521,6 +5695,8 @@ def check_normal_form(ctx, tu):
                             if hs[0]:
                                 strip = hs
                                 via = hf
+                                skey = ('var', ps[ai]['id'], ps[ai]['name'])
+            late = conversions_after_strip(tu, strip, skey)
             # classify the content written
             raw = init_from_param is not None and tkey[1] == ('this',)
             sep_write = None
@@ -5556,7 +5732,14 @@ def check_normal_form(ctx, tu):
                 else:
                     other.append(w)
             tinst = '%s: writes `%s`' % (inst, tname)
-            if strip[0]:
+            if strip[0] and late:
+                lx = strip[3]
+                ctx.violation(R, tinst, 'trailing separators are stripped%s (%s) BEFORE `%s` converts the remaining separators to the native '
+                              'one: a name that ends in the foreign separator (FileName("dir\\\\") on POSIX) is stored with a separator at its '
+                              'end, so base()/name()/ext() of it are empty' % ((' in ' + fn_name(via)) if via else '', strip[1],
+                                                                              tu.show(late[0][0])), tu.loc(late[0][0]),
+                              key='%s|%s|%s|strip-before-convert' % (R, tu.fn_file(lx.f), fn_name(lx.f)))
+            elif strip[0]:
                 ctx.ok(R, tinst, 'trailing separators are stripped%s: %s' % ((' by ' + fn_name(via)) if via else '', strip[1]), loc)
             elif sep_write is not None:
                 ctx.violation(R, tinst, '`%s` puts a path separator at the end of `%s` and %s, without going through the normalising '
@@ -5699,7 +5882,7 @@ def run_on(ctx, tu_drv, tu_url, tu_fn, tu_common, tu_w):
     ctx.describe('R-C18-5', 'removeArgs: av[i-h] = av[i] for i in [where+h, ac) upwards, then ac -= h; ArgumentList::remove erases '
                             'h elements at begin()+where; parseAndRemove advances iff nothing was consumed, else removes at the index')
     n5 = check_remove_args(ctx, tu_common) + check_arglist(ctx, tu_drv)
-    ctx.floor('R-C18-5', n5, 4, 'removeArgs, ArgumentList constructor, ArgumentList::remove, ArgumentsParser::parseAndRemove')
+    ctx.floor('R-C18-5', n5, 5, 'removeArgs, ArgumentList storage + constructor + remove, ArgumentsParser::parseAndRemove')
     ctx.describe('R-C18-6', 'longestBeginningMatch scans min(first.size(), second.size()) characters; beginsWith compares the match '
                             'length with the length of the prefix argument')
     n6 = check_prefix(ctx, tu_drv)
